@@ -4,26 +4,26 @@ From Verif Require Import Base.Prelude Model.C43 Proofs.C43_base Proofs.C43_inv 
 Local Open Scope N_scope.
 
 (** ---- the default lookup (empty retention policy): FindMany {org, db, default=true} ---- *)
-Lemma filter_ok_fdef o d m : filter_ok (fdef o d) m = true -> m_db m = d /\ m_def m = true.
+Lemma filter_ok_fdef o d m :
+  filter_ok (fdef o d) m = true -> m_org m = o /\ m_db m = d /\ m_def m = true.
 Proof.
   unfold filter_ok, fdef; cbn. rewrite !andb_true_iff.
-  intros [[[[[_ _] H1] _] H2] _]. apply N.eqb_eq in H1. split; [auto|].
+  intros [[[[[H0 _] H1] _] H2] _]. apply N.eqb_eq in H0, H1. repeat split; auto.
   destruct (m_def m); [reflexivity|discriminate].
 Qed.
 
 Lemma virt_pass_default_only o d m bs :
-  m_db m = d -> m_def m = true -> virt_pass (fdef o d) bs [m] = [m].
+  m_org m = o -> m_db m = d -> m_def m = true -> virt_pass (fdef o d) bs [m] = [m].
 Proof.
-  intros Hd Hdef. induction bs as [|b bs IH]; cbn [virt_pass]; [reflexivity|].
-  cbn [b2m m_db m_rp m_def shadow].
-  destruct (m_db m =? b_db b) eqn:E1.
+  intros Ho Hd Hdef. induction bs as [|b bs IH]; cbn [virt_pass]; [reflexivity|].
+  cbn [b2m m_org m_db m_rp m_def shadow].
+  destruct ((m_org m =? b_org b) && (m_db m =? b_db b)) eqn:E1.
   - destruct (m_rp m =? b_rp b); [exact IH|]. rewrite Hdef. cbn [andb].
-    apply N.eqb_eq in E1.
-    destruct (b_plain b); cbn [shadow].
-    + destruct (filter_ok _ _) eqn:Fk; [|exact IH]. apply filter_ok_fdef in Fk as [_ Fk]. discriminate.
-    + destruct (filter_ok _ _) eqn:Fk; [|exact IH]. apply filter_ok_fdef in Fk as [_ Fk]. discriminate.
-  - apply N.eqb_neq in E1.
-    destruct (filter_ok _ _) eqn:Fk; [|exact IH]. apply filter_ok_fdef in Fk as [Fk _]. cbn in Fk. congruence.
+    destruct (b_plain b).
+    + destruct (filter_ok _ _) eqn:Fk; [|exact IH]. apply filter_ok_fdef in Fk as [_ [_ Fk]]. discriminate.
+    + destruct (filter_ok _ _) eqn:Fk; [|exact IH]. apply filter_ok_fdef in Fk as [_ [_ Fk]]. discriminate.
+  - destruct (filter_ok _ _) eqn:Fk; [|exact IH]. apply filter_ok_fdef in Fk as [F1 [F2 _]]. cbn in F1, F2.
+    rewrite Ho, Hd, F1, F2, !N.eqb_refl in E1. discriminate.
 Qed.
 
 Lemma default_lookup_inv base st o d :
@@ -39,17 +39,17 @@ Proof.
   cbn [add_all]. rewrite H1, H2, G, N.eqb_refl.
   assert (Fk : filter_ok (fdef o d) (rec2m x r true) = true).
   { unfold filter_ok, fdef, rec2m; cbn. rewrite H1, H2, !N.eqb_refl. reflexivity. }
-  unfold fdef in Fk |- *. rewrite Fk. cbn [of_opt find_buckets f_bkt f_org].
-  f_equal. apply (virt_pass_default_only o d); [exact H2 | reflexivity].
+  unfold fdef in Fk |- *. rewrite Fk. cbn [find_buckets f_bkt f_org].
+  f_equal. apply (virt_pass_default_only o d); [exact H1 | exact H2 | reflexivity].
 Qed.
 
 Lemma default_lookup bk base ops o d :
-  wf_bk bk base -> Forall (legal base) ops ->
+  wf_bk bk base ->
   let st := run bk base ops in
   (exists id r, live st id r /\ r_org r = o /\ r_db r = d) ->
   exists id r, dget o d (dfl st) = Some id /\ live st id r /\ r_org r = o /\ r_db r = d /\
                find_many st (fdef o d) = ROk [rec2m id r true].
-Proof. intros W L st. apply default_lookup_inv with (base := base). apply run_inv; assumption. Qed.
+Proof. intros W st. apply default_lookup_inv with (base := base). apply run_inv; assumption. Qed.
 
 (** ---- the (org, db) index stays in ascending id order without duplicates (all histories) ---- *)
 Definition le3 (a b : N * N * N) : Prop := snd a <= snd b.
@@ -97,7 +97,8 @@ Qed.
 Lemma update_idx st o id rp def virt : iod (fst (update st o id rp def virt)) = iod st.
 Proof.
   unfold update. destruct (negb (name_ok rp)); [reflexivity|].
-  destruct (find_by_id st o id); [|reflexivity].
+  destruct (find_by_id st o id) as [old|]; [|reflexivity].
+  destruct (m_virt old); [reflexivity|].
   destruct (negb (unique_ok _ _ _ _ _)); reflexivity.
 Qed.
 
@@ -215,15 +216,10 @@ Definition mk (dl : list (N * N * N)) (kv : N * rec) : mapping :=
         (match dget (r_org (snd kv)) (r_db (snd kv)) dl with Some x => fst kv =? x | None => false end).
 
 Lemma add_all_total dl f kvs :
-  (forall kv, In kv kvs -> dget (r_org (snd kv)) (r_db (snd kv)) dl <> None) ->
-  add_all dl f kvs = Some (filter (filter_ok f) (map (mk dl) kvs)).
+  add_all dl f kvs = filter (filter_ok f) (map (mk dl) kvs).
 Proof.
-  induction kvs as [|[id r] kvs IH]; intro H; cbn [add_all map filter]; [reflexivity|].
-  pose proof (H (id, r) (or_introl eq_refl)) as H0. cbn in H0.
-  destruct (dget (r_org r) (r_db r) dl) as [x|] eqn:G; [|congruence].
-  rewrite IH by (intros kv Hkv; apply H; right; exact Hkv).
-  assert (E : mk dl (id, r) = rec2m id r (id =? x)) by (unfold mk; cbn [fst snd]; rewrite G; reflexivity).
-  rewrite E. reflexivity.
+  induction kvs as [|[id r] kvs IH]; cbn [add_all map filter]; [reflexivity|].
+  rewrite IH. unfold mk at 1 3. cbn [fst snd]. reflexivity.
 Qed.
 
 Lemma filter_le1 {A} (key : A -> N) (P : A -> bool) l :
@@ -275,18 +271,18 @@ Proof.
 Qed.
 
 Lemma virt_pass_le1 o d rp bs : forall ms,
-  (length ms <= 1)%nat -> (forall m, In m ms -> m_db m = d /\ m_rp m = rp) ->
+  (length ms <= 1)%nat -> (forall m, In m ms -> m_org m = o /\ m_db m = d /\ m_rp m = rp) ->
   (length (virt_pass (frp o d rp) bs ms) <= 1)%nat.
 Proof.
   induction bs as [|b bs IH]; intros ms Hl Hm; cbn [virt_pass]; [exact Hl|].
-  cbn [b2m m_db m_rp m_def].
-  destruct (shadow ms (b_db b) (b_rp b) (b_plain b)) as [nd|] eqn:Sh; [|apply IH; assumption].
+  cbn [b2m m_org m_db m_rp m_def].
+  destruct (shadow ms (b_org b) (b_db b) (b_rp b) (b_plain b)) as [nd|] eqn:Sh; [|apply IH; assumption].
   destruct (filter_ok _ _) eqn:Fk; [|apply IH; assumption].
-  apply filter_ok_frp in Fk as [_ [Fd Fr]]. cbn in Fd, Fr.
+  apply filter_ok_frp in Fk as [Fo [Fd Fr]]. cbn in Fo, Fd, Fr.
   destruct ms as [|m [|m2 t]]; [| |cbn in Hl; lia].
   - apply IH; cbn; [lia|]. intros x [<- | []]. cbn. auto.
-  - exfalso. destruct (Hm m (or_introl eq_refl)) as [Hd Hr].
-    cbn [shadow] in Sh. rewrite Hd, Hr, Fd, Fr, !N.eqb_refl in Sh. discriminate.
+  - exfalso. destruct (Hm m (or_introl eq_refl)) as [Ho [Hd Hr]].
+    cbn [shadow] in Sh. rewrite Ho, Hd, Hr, Fo, Fd, Fr, !N.eqb_refl in Sh. discriminate.
 Qed.
 
 Lemma virt_pass_in f bs : forall ms m,
@@ -308,11 +304,7 @@ Proof.
                  lookup (fst kv) (src st) = Some (snd kv) /\ r_org (snd kv) = o /\ r_db (snd kv) = d).
   { intros [id r] Hin. apply in_walk_od in Hin as [Hi L]. cbn. split; [exact L|].
     apply (inv_idx _ _ I) in Hi as [r0 [L0 [H1 H2]]]. rewrite L in L0. inversion L0; subst. auto. }
-  assert (Hp : add_all (dfl st) (frp o d rp) (walk_od st o d) =
-               Some (filter (filter_ok (frp o d rp)) (map (mk (dfl st)) (walk_od st o d)))).
-  { apply add_all_total. intros kv Hin. destruct (Hw kv Hin) as [L [H1 H2]].
-    pose proof (inv_dfl _ _ I (r_org (snd kv)) (r_db (snd kv))) as Dd. unfold dfl_ok_at in Dd.
-    destruct (dget _ _ (dfl st)); [discriminate|]. exfalso. apply (Dd (fst kv)). exists (snd kv). auto. }
+  pose proof (add_all_total (dfl st) (frp o d rp) (walk_od st o d)) as Hp.
   set (ph := filter (filter_ok (frp o d rp)) (map (mk (dfl st)) (walk_od st o d))) in *.
   assert (Hph : forall m, In m ph -> m_org m = o /\ m_db m = d /\ m_rp m = rp).
   { intros m Hm. apply filter_In in Hm as [_ Hm]. apply filter_ok_frp in Hm. exact Hm. }
@@ -325,20 +317,20 @@ Proof.
       apply (inv_uniq _ _ I _ _ _ _ La Lb); congruence. }
   unfold find_many, phys. cbn [frp f_org f_db f_def is_true f_bkt find_buckets].
   change (add_all (dfl st) _ (walk_od st o d)) with (add_all (dfl st) (frp o d rp) (walk_od st o d)).
-  rewrite Hp. cbn [of_opt].
+  rewrite Hp.
   eexists. split; [reflexivity|]. split.
-  - apply virt_pass_le1; [exact Hlen|]. intros m Hm. destruct (Hph m Hm) as [_ [? ?]]. auto.
+  - apply virt_pass_le1; [exact Hlen | exact Hph].
   - intros m Hm. apply virt_pass_in in Hm as [Hm | Hm]; [exact (Hph m Hm) | exact (filter_ok_frp _ _ _ _ Hm)].
 Qed.
 
 Lemma lookup_at_most_one bk base ops o d rp :
-  wf_bk bk base -> Forall (legal base) ops ->
+  wf_bk bk base ->
   exists l, find_many (run bk base ops) (frp o d rp) = ROk l /\ (length l <= 1)%nat /\
             forall m, In m l -> m_org m = o /\ m_db m = d /\ m_rp m = rp.
-Proof. intros W L. apply lookup_at_most_one_inv with (base := base); [apply run_inv; assumption | apply run_idx]. Qed.
+Proof. intros W. apply lookup_at_most_one_inv with (base := base); [apply run_inv; assumption | apply run_idx]. Qed.
 
 Lemma delete_promotes bk base ops o id r :
-  wf_bk bk base -> Forall (legal base) ops ->
+  wf_bk bk base ->
   let st := run bk base ops in
   live st id r -> r_org r = o -> dget o (r_db r) (dfl st) = Some id ->
   let st' := run bk base (ops ++ [Delete o id]) in
@@ -350,8 +342,108 @@ Lemma delete_promotes bk base ops o id r :
   | None => forall id' r', live st' id' r' -> ~ (r_org r' = o /\ r_db r' = r_db r)
   end.
 Proof.
-  intros W L st Lv Ho G st'.
+  intros W st Lv Ho G st'.
   assert (E : st' = fst (delete st o id)).
   { unfold st', st, run. rewrite fold_left_app. reflexivity. }
   rewrite E. apply (delete_promotes_inv base); auto; [apply run_inv; assumption | apply run_idx].
+Qed.
+
+(** ---- the listing FindMany {org, db}: at most one mapping per (org, db, rp), virtual ones included ---- *)
+Definition key3 (m : mapping) : N * N * N := (m_org m, m_db m, m_rp m).
+
+Lemma shadow_some ms o d rp : forall nd x,
+  shadow ms o d rp nd = Some x -> forall m, In m ms -> key3 m <> (o, d, rp).
+Proof.
+  induction ms as [|a ms IH]; intros nd x H m Hin; [destruct Hin|].
+  cbn [shadow] in H.
+  destruct ((m_org a =? o) && (m_db a =? d)) eqn:E.
+  - destruct (m_rp a =? rp) eqn:E2; [discriminate|].
+    destruct Hin as [<- | Hin]; [|exact (IH _ _ H m Hin)].
+    unfold key3. intro C. inversion C. apply N.eqb_neq in E2. contradiction.
+  - destruct Hin as [<- | Hin]; [|exact (IH _ _ H m Hin)].
+    unfold key3. intro C. inversion C. subst. rewrite !N.eqb_refl in E. discriminate.
+Qed.
+
+Lemma NoDup_snoc {A} (l : list A) a : NoDup l -> ~ In a l -> NoDup (l ++ [a]).
+Proof.
+  induction l as [|x l IH]; intros D Hn; cbn; [constructor; [intros []|constructor]|].
+  inversion D as [|? ? Hx D']; subst. constructor.
+  - intro C. apply in_app_or in C as [C | [C | []]]; [contradiction|]. subst. apply Hn. left; reflexivity.
+  - apply IH; [exact D'|]. intro C. apply Hn. right; exact C.
+Qed.
+
+Lemma virt_pass_nodup f bs : forall ms,
+  NoDup (map key3 ms) -> NoDup (map key3 (virt_pass f bs ms)).
+Proof.
+  induction bs as [|b bs IH]; intros ms D; cbn [virt_pass]; [exact D|].
+  destruct (shadow ms _ _ _ _) as [nd|] eqn:Sh; [|apply IH; exact D].
+  destruct (filter_ok f _); [|apply IH; exact D].
+  apply IH. rewrite map_app. cbn [map]. apply NoDup_snoc; [exact D|].
+  intro C. apply in_map_iff in C as [m [E Hm]].
+  apply (shadow_some _ _ _ _ _ _ Sh m Hm). rewrite E. reflexivity.
+Qed.
+
+Lemma NoDup_map_filter {A B} (g : A -> B) p l : NoDup (map g l) -> NoDup (map g (filter p l)).
+Proof.
+  induction l as [|a l IH]; cbn; intro D; [constructor|].
+  inversion D as [|? ? Hn D']; subst. destruct (p a); cbn; [|apply IH; exact D'].
+  constructor; [|apply IH; exact D'].
+  intro C. apply Hn. apply in_map_iff in C as [x [E Hx]]. apply filter_In in Hx as [Hx _].
+  apply in_map_iff. eauto.
+Qed.
+
+Lemma NoDup_map_transfer {A B C} (f : A -> B) (g : A -> C) l :
+  NoDup (map f l) -> (forall a b, In a l -> In b l -> g a = g b -> f a = f b) -> NoDup (map g l).
+Proof.
+  induction l as [|a l IH]; cbn; intros D U; [constructor|].
+  inversion D as [|? ? Hn D']; subst. constructor.
+  - intro C0. apply in_map_iff in C0 as [b [E Hb]]. apply Hn.
+    rewrite (U a b (or_introl eq_refl) (or_intror Hb) (eq_sym E)). apply in_map. exact Hb.
+  - apply IH; [exact D'|]. intros x y Hx Hy. apply U; right; assumption.
+Qed.
+
+Lemma listing_nodup_inv base st o d :
+  Inv base st -> idx_ok (iod st) ->
+  exists l, find_many st (fod o d) = ROk l /\ NoDup (map key3 l).
+Proof.
+  intros I [_ D].
+  assert (Hw : forall kv, In kv (walk_od st o d) -> lookup (fst kv) (src st) = Some (snd kv)).
+  { intros [id r] Hin. apply in_walk_od in Hin as [_ L]. exact L. }
+  unfold find_many, phys. cbn [fod f_org f_db f_def is_true f_bkt find_buckets].
+  change (add_all (dfl st) _ (walk_od st o d)) with (add_all (dfl st) (fod o d) (walk_od st o d)).
+  rewrite add_all_total. eexists. split; [reflexivity|].
+  apply virt_pass_nodup. apply NoDup_map_filter. rewrite map_map.
+  apply (NoDup_map_transfer (fun kv : N * rec => fst kv)).
+  - apply walk_keys_nodup. apply od_ids_nodup. exact D.
+  - intros a b Ha Hb E. unfold key3, mk in E. cbn in E. inversion E.
+    apply (inv_uniq _ _ I _ _ _ _ (Hw a Ha) (Hw b Hb)); assumption.
+Qed.
+
+Lemma listing_nodup bk base ops o d :
+  wf_bk bk base ->
+  exists l, find_many (run bk base ops) (fod o d) = ROk l /\ NoDup (map key3 l).
+Proof. intros W. apply listing_nodup_inv with (base := base); [apply run_inv; exact W | apply run_idx]. Qed.
+
+(** Update of a virtual mapping (a bucket id) is rejected and changes nothing *)
+Lemma update_virtual_rejected base st o id rp def virt b :
+  Inv base st -> find_bucket id (bks st) = Some b ->
+  update st o id rp def virt = (st, E_NOTFOUND) \/ update st o id rp def virt = (st, E_INVALID).
+Proof.
+  intros I Fb. unfold update. destruct (negb (name_ok rp)); [right; reflexivity|]. left.
+  assert (Hno : lookup id (src st) = None).
+  { destruct (lookup id (src st)) eqn:L; [|reflexivity]. apply (inv_fresh _ _ I) in L.
+    apply find_bucket_some in Fb as [Hin Hb]. apply (inv_bk _ _ I) in Hin. lia. }
+  unfold find_by_id, virt_by_id. rewrite Hno, Fb. reflexivity.
+Qed.
+
+(** FindMany never panics and never fails in a reachable state (all filters) *)
+Lemma find_many_total_inv base st f : Inv base st -> exists l, find_many st f = ROk l.
+Proof.
+  intro I. unfold find_many.
+  assert (P : exists ms, phys st f = ROk ms).
+  { unfold phys. destruct (f_org f) as [o|]; [|eauto]. destruct (f_db f) as [d|]; [|eauto].
+    destruct (is_true (f_def f)); [|eauto].
+    pose proof (inv_dfl _ _ I o d) as Dd. unfold dfl_ok_at in Dd.
+    destruct (dget o d (dfl st)) as [x|]; [|eauto]. destruct Dd as [r [L _]]. rewrite L. eauto. }
+  destruct P as [ms ->]. destruct (find_buckets st f); eauto.
 Qed.
